@@ -121,27 +121,41 @@ Lemma unstamped_current_covers_b :
                     && covers (d_schema (cur (fst (opened (mkdb orm_schema r 0))))) orm_schema) unstamped_revs = true.
 Proof. vm_compute. reflexivity. Qed.
 
-(* ---------- does the migrated schema contain what the current mappers read and write? ---------- *)
+(* ---------- the migrated schema contains what the current mappers read and write ---------- *)
+(* base_schema / artifact_schema are PINNED historical schemas, orm_schema is Base.metadata of this run:
+   a mapper column without a migration step makes these two computations fail *)
 
-(* everything except the listed gaps is provided ... *)
-Lemma current_covers_orm_but_gaps :
-  covers (current_schema base_schema) (remove_gaps orm_gaps orm_schema) = true.
+Lemma current_covers_orm : covers (current_schema base_schema) orm_schema = true.
 Proof. vm_compute. reflexivity. Qed.
 
-(* ... and every listed gap is real (orm_gaps = [] makes the lemma above the full statement) *)
-Lemma orm_gaps_real :
-  forallb (fun g => negb (has_col (current_schema base_schema) g) && has_col orm_schema g) orm_gaps = true.
+Lemma artifact_covers_orm : covers (run_steps_schema steps artifact_schema) orm_schema = true.
 Proof. vm_compute. reflexivity. Qed.
 
-(* the repository's own historical file (artifact_schema = [] when the file is absent) *)
-Lemma artifact_covers_orm_but_gaps :
-  covers (run_steps_schema steps artifact_schema) (remove_gaps artifact_gaps orm_schema) = true
-  \/ artifact_schema = [].
-Proof. first [ left; vm_compute; reflexivity | right; reflexivity ]. Qed.
-
-Lemma artifact_gaps_real :
-  forallb (fun g => negb (has_col (run_steps_schema steps artifact_schema) g) && has_col orm_schema g) artifact_gaps = true.
+(* what open_database leaves on disk for a pinned historical file covers the mappers too (any stamp state) *)
+Lemma opened_disk_covers_orm_b :
+  forallb (fun k => forallb (fun r => covers (d_schema (disk (fst (opened (unstamped_db base_schema k r))))) orm_schema
+                                     || negb (v_commit code_variant)) unstamped_revs)
+          (seq 0 (S (List.length steps))) = true.
 Proof. vm_compute. reflexivity. Qed.
+
+(* ---------- released revision ids (PINNED) stay recognised: the step list is append-only ---------- *)
+
+Definition pinned_ok (k : nat) : bool :=
+  String.eqb (nth k pinned_revision_ids "") (rev_id real_md5 (firstn (S k) steps)).
+
+Lemma pinned_ids_are_prefix_b :
+  Nat.leb (List.length pinned_revision_ids) (List.length steps)
+  && forallb pinned_ok (seq 0 (List.length pinned_revision_ids)) = true.
+Proof. vm_compute. reflexivity. Qed.
+
+Lemma released_revisions_recognised (k : nat) : k < List.length pinned_revision_ids ->
+  get_steps real_md5 steps (Some (nth k pinned_revision_ids "")) = skipn (S k) steps.
+Proof.
+  intro Hk. pose proof pinned_ids_are_prefix_b as B. apply andb_true_iff in B. destruct B as [B1 B2].
+  apply Nat.leb_le in B1. pose proof (forallb_seq _ _ _ B2 k ltac:(lia)) as E.
+  unfold pinned_ok in E. apply String.eqb_eq in E. rewrite E.
+  apply (get_steps_prefix real_md5 steps (S k) steps_ids_distinct steps_revs_distinct). lia.
+Qed.
 
 (* ---------- the full fixed-point statement fails on the generated steps ---------- *)
 
